@@ -15,6 +15,9 @@ import (
 	"github.com/cube2222/octosql/physical"
 )
 
+// maxRepeatedStringLength bounds the result of String * Int.
+const maxRepeatedStringLength = 1 << 30
+
 func FunctionMap() map[string]physical.FunctionDetails {
 	return map[string]physical.FunctionDetails{
 		// Comparisons
@@ -304,6 +307,9 @@ func FunctionMap() map[string]physical.FunctionDetails {
 					OutputType:    octosql.String,
 					Strict:        true,
 					Function: func(values []octosql.Value) (octosql.Value, error) {
+						if values[1].Int < 0 || (len(values[0].Str) > 0 && values[1].Int > int64(maxRepeatedStringLength/len(values[0].Str))) {
+							return octosql.ZeroValue, fmt.Errorf("invalid string repeat count: %d", values[1].Int)
+						}
 						return octosql.NewString(strings.Repeat(values[0].Str, int(values[1].Int))), nil
 					},
 				},
@@ -312,6 +318,9 @@ func FunctionMap() map[string]physical.FunctionDetails {
 					OutputType:    octosql.String,
 					Strict:        true,
 					Function: func(values []octosql.Value) (octosql.Value, error) {
+						if values[0].Int < 0 || (len(values[1].Str) > 0 && values[0].Int > int64(maxRepeatedStringLength/len(values[1].Str))) {
+							return octosql.ZeroValue, fmt.Errorf("invalid string repeat count: %d", values[0].Int)
+						}
 						return octosql.NewString(strings.Repeat(values[1].Str, int(values[0].Int))), nil
 					},
 				},
